@@ -453,8 +453,9 @@ def rule_algebra(ck):
     if not ok:
         # dict.fromkeys(ids, 1), possibly through a temporary
         for n_, c in calls_in(il, "__init__"):
-            if c.args:
-                a0 = il.expand(c.args[0], n_)
+          if c.args:
+            # one constructor call fed by a local that each branch fills: every alternative of the argument is looked at
+            for a0 in alts_deep(il.expand(c.args[0], n_), limit=12):
                 if isinstance(a0, ast.Call) and canon(a0.func) == "dict.fromkeys" and len(a0.args) == 2 and isinstance(a0.args[1], ast.Constant) and a0.args[1].value == 1 \
                         and canon(a0.args[0]) == init.params[1]:
                     ok = True
